@@ -107,6 +107,8 @@ type Event struct {
 	Args []Val
 	Res  []Val
 	Pos  string
+	Held []string // locks held when the call happened
+	Iter int      // loop-iteration epoch (incremented at every loop-head cut)
 }
 
 type mapIter struct {
@@ -185,6 +187,7 @@ type State struct {
 	fin     map[string]string // float term -> real term, for terms known finite on this path
 	nonzero map[string]bool   // real terms known to be non-zero
 	finCount *int
+	iterEpoch int
 	declare func(name, sort string)
 }
 
@@ -200,6 +203,7 @@ func (s *State) clone() *State {
 		fresh:  append([]string(nil), s.fresh...),
 		trace:  append([]string(nil), s.trace...),
 		run:    s.run,
+		iterEpoch: s.iterEpoch,
 	}
 	for _, f := range s.frames {
 		n.frames = append(n.frames, f.clone())
@@ -455,4 +459,12 @@ func copyHeap(h map[string]string) map[string]string {
 		n[k] = v
 	}
 	return n
+}
+
+func (s *State) addEvent(e Event) {
+	for k := range s.held {
+		e.Held = append(e.Held, k)
+	}
+	e.Iter = s.iterEpoch
+	s.events = append(s.events, e)
 }
